@@ -17,7 +17,7 @@ RULE = ('rows = 16 scope-type declarations (none + every non-empty ordered subse
         'x do_raise x check allows/denies/depends on a role x rule overridden in the policy file or not (under its own name, or - for policies registered as renamed - under the deprecated old name) x registered as RuleDefault / DocumentedRuleDefault x rule by name / check object x '
         '4 credential representations (dict, RequestContext, to_policy_values mapping, that mapping with the `system` '
         'spelling added on top; the `system` spelling exists only for dicts and the last form); four more blocks flip '
-        'enforce_scope on a LIVING enforcer (on->off->on, off->on->off, ...) and re-run the table after each flip x role content irrelevant to the check. Non-trivial = scope types declared; distinct = distinct row. Stratum `overlap`: two requests with differently scoped tokens on one enforcer at the same time (second one runs at sampled line boundaries of the first, deterministic scheduler), each decided as its row says. Stratum `alias` (counted apart, counters reference_*): registered policies whose check string - registered default, or policy-file override (own name / deprecated old name) of a default saying the opposite - is a reference to ANOTHER registered policy declaring different scope types (none included, both directions): bare `rule:x`, under not / and / or, and through a chain of two references; referenced policy allows / denies / depends on a role, itself overridden in the file or not; by name and as a check object; the gate is that of the scope types the enforced policy itself declares, and when it lets the request through the decision is that of the check (what the check of the referenced policy decides; references inside a check are not gated). Stratum `extras` (counted apart, counter rows_with_other_context_attributes): the table again - 8 scope-type declarations x the 12 credential combinations x enforce_scope x do_raise x check allows/denies/depends on a role x overridden or not x by name / check object - with credentials that carry, besides the scope-defining system scope / domain_id / project_id (varied independently as before), the OTHER attributes of a real request context in 7 profiles (project_domain_id, user_domain_id, user_id, user/project/domain names, is_admin / is_admin_project / read_only, service_* attributes, all of them together), in 5 representations: RequestContext, its to_policy_values() mapping, dict(that mapping), that dict with the `system` spelling added, and a hand-made dict holding only the keys that have a value (e.g. project_domain_id although domain_id is absent; legacy tenant / user keys); the token scope stays the function the statement gives of system scope / domain_id / project_id only, so every representation must decide as the row of the main table does. Stratum `route` (counted apart, counters rows_with_enforce_scope_set_by.*): the main table again, complete, with the option enforce_scope (on and off) set not by conf.set_override but by each of the other public routes a service has - conf.set_default, oslo_policy.opts.set_defaults(conf, enforce_scope=...) alone, opts.set_defaults(conf, policy_file=<the policy file>, enforce_scope=...) in one call, a configuration file `[oslo_policy] enforce_scope = ...` given with --config-file; the statement speaks of enforcement being on or off, not of how it was switched, so every route must decide as the row says. Stratum `placeholders` (counted apart, counters placeholder_*): registered policies whose check strings AND names contain `%(key)s` substitutions and other text that is hostile to string formatting (`project_id:%(project_id)s`, `user_id:%(user_id)s or role:admin`, `\'x\':%(k)s`, dotted keys, braces `{0}` `{name}`, names with `%(x)s`, `%s`, `%d`, a lone `%`, braces), the 16 scope-type declarations x the 12 credential combinations x dict / RequestContext / policy-values mapping x enforce_scope x do_raise x overridden in the file or not x by name / as a check object (whose printed form is that text), evaluated with non-empty targets that make the check allow and deny: whatever the check string, the gate is that of the row and otherwise the decision is exactly that of the check.')
+        'enforce_scope on a LIVING enforcer (on->off->on, off->on->off, ...) and re-run the table after each flip x role content irrelevant to the check. Non-trivial = scope types declared; distinct = distinct row. Stratum `overlap`: two requests with differently scoped tokens on one enforcer at the same time (second one runs at sampled line boundaries of the first, deterministic scheduler), each decided as its row says. Stratum `alias` (counted apart, counters reference_*): registered policies whose check string - registered default, or policy-file override (own name / deprecated old name) of a default saying the opposite - is a reference to ANOTHER registered policy declaring different scope types (none included, both directions): bare `rule:x`, under not / and / or, and through a chain of two references; referenced policy allows / denies / depends on a role, itself overridden in the file or not; by name and as a check object; the gate is that of the scope types the enforced policy itself declares, and when it lets the request through the decision is that of the check (what the check of the referenced policy decides; references inside a check are not gated). Stratum `extras` (counted apart, counter rows_with_other_context_attributes): the table again - 8 scope-type declarations x the 12 credential combinations x enforce_scope x do_raise x check allows/denies/depends on a role x overridden or not x by name / check object - with credentials that carry, besides the scope-defining system scope / domain_id / project_id (varied independently as before), the OTHER attributes of a real request context in 7 profiles (project_domain_id, user_domain_id, user_id, user/project/domain names, is_admin / is_admin_project / read_only, service_* attributes, all of them together), in 5 representations: RequestContext, its to_policy_values() mapping, dict(that mapping), that dict with the `system` spelling added, and a hand-made dict holding only the keys that have a value (e.g. project_domain_id although domain_id is absent; legacy tenant / user keys); the token scope stays the function the statement gives of system scope / domain_id / project_id only, so every representation must decide as the row of the main table does. Stratum `route` (counted apart, counters rows_with_enforce_scope_set_by.*): the main table again, complete, with the option enforce_scope (on and off) set not by conf.set_override but by each of the other public routes a service has - conf.set_default, oslo_policy.opts.set_defaults(conf, enforce_scope=...) alone, opts.set_defaults(conf, policy_file=<the policy file>, enforce_scope=...) in one call, a configuration file `[oslo_policy] enforce_scope = ...` given with --config-file; the statement speaks of enforcement being on or off, not of how it was switched, so every route must decide as the row says. Stratum `placeholders` (counted apart, counters placeholder_*): registered policies whose check strings AND names contain `%(key)s` substitutions and other text that is hostile to string formatting (`project_id:%(project_id)s`, `user_id:%(user_id)s or role:admin`, `\'x\':%(k)s`, dotted keys, braces `{0}` `{name}`, names with `%(x)s`, `%s`, `%d`, a lone `%`, braces), the 16 scope-type declarations x the 12 credential combinations x dict / RequestContext / policy-values mapping x enforce_scope x do_raise x overridden in the file or not x by name / as a check object (whose printed form is that text), evaluated with non-empty targets that make the check allow and deny: whatever the check string, the gate is that of the row and otherwise the decision is exactly that of the check. Stratum `history` (counted apart, counters history_*): enforcers built and fed in every public way - constructed with rules= given or not, use_conf False / True, overwrite True / False; defaults registered with register_default one by one or register_defaults as a list, before and after the first enforce, after set_rules and again (under ANOTHER scope declaration) after clear(); set_rules(overwrite True / False, use_conf True / False) of a Rules.from_dict / plain dict / Rules.load mapping on the living enforcer; clear(); load_rules() and load_rules(force_reload=True); the policy file rewritten - 8 fixed histories plus seeded random ones, and after every stage the scope matrix (8 scope-type declarations x the 12 credential combinations x dict / RequestContext / policy-values mapping x enforce_scope flipped on the living enforcer x do_raise x check allows / denies / depends on a role x by name, and by check object at the first stage) over every policy registered at that moment; registered default, policy file and the rules handed over spell the same decision differently, so the decision of the check is the same whichever source the enforcer reads, and the scope types of the policy as registered NOW gate it however the enforcer came by its rules; where a name resolves to no rule at all (file loading off and nothing handed over) only `a scope mismatch is denied, in whichever form` is demanded.')
 ASSUMPTIONS = ['oslo.context RequestContext.to_policy_values is the conversion the statement means',
                'the check decision is made independent of roles by using @ / ! (registered default) and the opposite '
                'constant as file override, so that a gate reading the wrong rule is visible',
@@ -28,6 +28,8 @@ ASSUMPTIONS = ['oslo.context RequestContext.to_policy_values is the conversion t
                '(set_override, set_default, opts.set_defaults with or without policy_file, a configuration file)',
                'oslo_policy.opts._options (a module-level list that set_defaults mutates for every ConfigOpts of the process) is swapped '
                'for a pristine deep copy around the blocks that call set_defaults, and put back afterwards',
+               'a policy name that resolves to no rule at all (enforcer with use_conf=False that was handed no rules, or after clear()) has no check in the sense '
+               'of the statement: any denial is accepted on a scope mismatch, nothing is demanded otherwise',
                'the decision of `a:%(k)s` checks is taken only on targets / credentials where it is beyond doubt: key present in the target and '
                'equal to / different from the value the credentials (or the literal) carry']
 LEVEL_TEXT = ('The statement quantifies over a finite product; all of it (about 2.3e4 rows) is executed against the real '
@@ -35,7 +37,7 @@ LEVEL_TEXT = ('The statement quantifies over a finite product; all of it (about 
 LEVEL_NOTE = 'trusted: the reference function (token scope derivation + membership) transcribed from the statement'
 PLAN = {'quick': dict(shards=4, wall=120), 'thorough': dict(shards=8, wall=300)}
 # the new strata are complete enumerations (their counts do not vary): each floor lies above what the stratum yields with one block missing
-MIN = {'rows_with_enforce_scope_set_by.set_default': 20000, 'rows_with_enforce_scope_set_by.set_defaults': 20000, 'rows_with_enforce_scope_set_by.set_defaults_with_policy_file': 20000, 'rows_with_enforce_scope_set_by.config_file': 20000, 'rows_switched_off_by_another_route_with_scope_mismatch': 11000, 'gate_denied_rows_switched_on_by_another_route': 11000, 'placeholder_rows': 100000, 'placeholder_gate_denied_rows': 10000, 'placeholder_rows_check_allows_with_scope_mismatch_enforcement_off': 5000, 'placeholder_rows_by_name_with_formatting_text_in_the_name': 42000, 'rows_with_other_context_attributes': 30000, 'gate_denied_rows_with_other_context_attributes': 5000, 'project_token_rows_where_a_domain_named_attribute_would_flip_the_gate': 1500, 'reference_rows': 20000, 'reference_gate_denied_rows': 3000, 'reference_rows_where_referenced_scope_disagrees': 3000, 'overlapping_evaluations': 200, 'option_flips_on_living_enforcer': 2, 'evaluations': 5000, 'gate_denied_rows': 500, 'allow_decisions': 500}
+MIN = {'history_rows': 24000, 'history_gate_denied_rows': 4500, 'history_gate_denied_rows_by_name_without_configuration_loading': 2400, 'history_rows_enforcer_rules_handed_over': 12000, 'history_rows_enforcer_loads_from_configuration': 9000, 'rows_with_enforce_scope_set_by.set_default': 20000, 'rows_with_enforce_scope_set_by.set_defaults': 20000, 'rows_with_enforce_scope_set_by.set_defaults_with_policy_file': 20000, 'rows_with_enforce_scope_set_by.config_file': 20000, 'rows_switched_off_by_another_route_with_scope_mismatch': 11000, 'gate_denied_rows_switched_on_by_another_route': 11000, 'placeholder_rows': 100000, 'placeholder_gate_denied_rows': 10000, 'placeholder_rows_check_allows_with_scope_mismatch_enforcement_off': 5000, 'placeholder_rows_by_name_with_formatting_text_in_the_name': 42000, 'rows_with_other_context_attributes': 30000, 'gate_denied_rows_with_other_context_attributes': 5000, 'project_token_rows_where_a_domain_named_attribute_would_flip_the_gate': 1500, 'reference_rows': 20000, 'reference_gate_denied_rows': 3000, 'reference_rows_where_referenced_scope_disagrees': 3000, 'overlapping_evaluations': 200, 'option_flips_on_living_enforcer': 2, 'evaluations': 5000, 'gate_denied_rows': 500, 'allow_decisions': 500}
 ANCHORS = ['oslo_policy.policy:Enforcer._enforce_scope', 'oslo_policy.policy:Enforcer.enforce',
            'oslo_policy.policy:Enforcer._map_context_attributes_into_creds']
 REQUIRED_ANCHORS = ['oslo_policy.policy:Enforcer.enforce']
@@ -715,6 +717,217 @@ def check_placeholder_block(ctx, enforce_scope, override):
         tree.cleanup()
 
 
+# -- enforcers built and fed in every public way ------------------------------------------------------------------------
+# The statement speaks of "a registered policy" and of the decision of "the check": it does not say how the enforcer came by
+# its rules.  A history = how an enforcer is constructed (rules= given or not, use_conf, overwrite) followed by operations of
+# its public interface; `probe` runs the scope matrix over every policy registered at that moment.
+#   ['new', rules_given, use_conf, overwrite] / ['reg', group, 'each' | 'list'] (register_default one by one / register_defaults)
+#   ['set', overwrite, use_conf, form] (set_rules of the complete rule set; form = how the mapping was made) / ['clear']
+#   ['reload'] (load_rules(force_reload=True)) / ['load'] (load_rules()) / ['touch'] (policy file rewritten) / ['probe']
+# Every source of a policy's check (registered default, policy file, rules handed over) spells the SAME decision differently,
+# so "the decision of the check" does not depend on which source the enforcer currently reads; the only thing modelled is
+# whether the name resolves at all (it does not in an enforcer that neither loads from configuration nor was handed rules).
+HISTORY_DECLS = [None, ['system'], ['domain'], ['project'], ['system', 'project'], ['project', 'domain'], ['domain', 'system'],
+                 ['system', 'domain', 'project']]
+HISTORY_GROUPS = 3
+HISTORY_SPELLINGS = {True: ('@', 'not !', '@ or !'), False: ('!', 'not @', '! and @'),
+                     'role': ('role:admin', 'role:admin or !', 'role:admin and @')}     # default / file / handed over
+HISTORY_FORMS = ('Rules.from_dict', 'dict', 'Rules.load')
+HISTORIES = [
+    # rules handed over, file loading off, defaults registered as usual (one by one / as a list / in stages between probes)
+    [['new', True, False, True], ['reg', 0, 'each'], ['reg', 1, 'list'], ['reg', 2, 'each'], ['probe']],
+    [['new', True, False, True], ['reg', 0, 'list'], ['probe'], ['reg', 1, 'each'], ['probe'], ['load'], ['reg', 2, 'list'], ['probe']],
+    # a living file-backed enforcer whose rules are replaced / updated, defaults registered afterwards
+    [['new', False, True, True], ['reg', 0, 'each'], ['probe'], ['set', True, False, 0], ['reg', 1, 'each'], ['probe'],
+     ['set', False, True, 1], ['reg', 2, 'list'], ['probe']],
+    [['new', False, True, True], ['reg', 0, 'list'], ['reg', 1, 'list'], ['reg', 2, 'list'], ['probe'], ['set', False, False, 2], ['probe'],
+     ['reload'], ['probe'], ['clear'], ['reg', 0, 'each'], ['reg', 1, 'each'], ['probe'], ['set', True, False, 1], ['probe'],
+     ['touch'], ['set', True, True, 0], ['reg', 2, 'each'], ['probe']],
+    [['new', True, True, False], ['reg', 0, 'each'], ['set', True, False, 2], ['probe'], ['reg', 1, 'list'], ['load'], ['probe'], ['clear'],
+     ['set', True, False, 0], ['reg', 2, 'each'], ['probe'], ['reg', 0, 'list'], ['probe'], ['reload'], ['probe']],
+    # nothing handed over and file loading off: the names do not resolve until rules arrive
+    [['new', False, False, True], ['reg', 0, 'each'], ['reg', 2, 'list'], ['probe'], ['set', False, False, 1], ['probe'], ['reg', 1, 'each'],
+     ['probe'], ['clear'], ['reg', 1, 'list'], ['set', True, True, 2], ['probe'], ['set', False, False, 0], ['reg', 0, 'each'], ['probe']],
+    [['new', True, False, False], ['reg', 1, 'each'], ['probe'], ['set', False, True, 0], ['probe'], ['touch'], ['probe'],
+     ['set', True, False, 1], ['reg', 0, 'list'], ['reg', 2, 'each'], ['probe'], ['clear'], ['reg', 2, 'each'], ['reload'], ['probe']],
+    [['new', False, True, False], ['probe'], ['reg', 2, 'each'], ['set', False, False, 2], ['reg', 0, 'each'], ['probe'], ['clear'],
+     ['reg', 0, 'list'], ['reg', 1, 'list'], ['reg', 2, 'list'], ['set', True, False, 0], ['probe'], ['load'], ['probe']],
+]
+HISTORIES_RANDOM = {'quick': 2, 'thorough': 12}       # per shard, besides the fixed ones
+
+
+def gen_history(ctx, i):
+    r = ctx.sub_rnd('H', ctx.tier, ctx.shard, i)
+    ops = [['new', r.random() < 0.5, r.random() < 0.4, r.random() < 0.7]]
+    registered, probes = set(), 0
+    while probes < 5 and len(ops) < 24:
+        x = r.random()
+        free = [g for g in range(HISTORY_GROUPS) if g not in registered]
+        if x < 0.3 and free:
+            g = r.choice(free)
+            registered.add(g)
+            ops.append(['reg', g, r.choice(['each', 'list'])])
+        elif x < 0.55:
+            ops.append(['set', r.random() < 0.5, r.random() < 0.35, r.randrange(3)])
+        elif x < 0.63:
+            ops.append(['clear'])
+            registered = set()
+        elif x < 0.70:
+            ops.append([r.choice(['reload', 'load', 'touch'])])
+        elif registered and ops[-1] != ['probe']:
+            ops.append(['probe'])
+            probes += 1
+    if ops[-1] != ['probe']:
+        ops.append(['probe'])
+    return ops
+
+
+def check_history(ctx, ops):
+    from oslo_policy import policy, _checks
+
+    class ScopedCheck(_checks.BaseCheck):
+        def __init__(self, res, st):
+            self.res = res
+            self.scope_types = st
+
+        def __str__(self):
+            return 'scoped-check'
+
+        def __call__(self, target, creds, enforcer, current_rule=None):
+            if self.res == 'role':
+                return 'admin' in [r.lower() for r in creds.get('roles', [])]
+            return self.res
+
+    pols = []                      # (name, index of the declaration before any clear(), check decision, serial number)
+    for i in range(len(HISTORY_DECLS)):
+        for ri, res in enumerate((True, False, 'role')):
+            pols.append(('hpol:%d_%s' % (i, res), i, res, i * 3 + ri))
+    handed = {nm: HISTORY_SPELLINGS[res][2] for nm, i, res, idx in pols}
+    filerules = {'unrelated': '@'}
+    for nm, i, res, idx in pols:
+        if idx % 2:
+            filerules[('old:' + nm) if idx % 3 == 2 and idx % 4 == 1 else nm] = HISTORY_SPELLINGS[res][1]
+
+    def mapping(form):
+        if form == 'dict':
+            return dict(policy.Rules.from_dict(handed))
+        if form == 'Rules.load':
+            import json
+            return policy.Rules.load(json.dumps(handed))
+        return policy.Rules.from_dict(handed)
+
+    def default_of(nm, res, idx, st):
+        text = HISTORY_SPELLINGS[res][0]
+        if idx % 3 == 1:
+            return policy.DocumentedRuleDefault(nm, text, 'doc', [{'path': '/p', 'method': 'GET'}], scope_types=st)
+        if idx % 3 == 2:
+            dep = policy.DeprecatedRule('old:' + nm, HISTORY_SPELLINGS[res][2], deprecated_reason='r', deprecated_since='s')
+            return policy.RuleDefault(nm, text, deprecated_rule=dep, scope_types=st)
+        return policy.RuleDefault(nm, text, scope_types=st)
+
+    tree = files.Tree(dirs=())
+    try:
+        tree.write(os.path.basename(tree.main), filerules, 'json')
+        conf = tree.conf(policy_dirs=[], enforce_scope=True)
+        enf = None
+        use_conf = handed_over = False
+        registered = {}                         # name -> (scope types it was registered with, check decision, serial number)
+        epoch = 0
+        case = dict(history=True, ops=ops)
+        hid = repr(ops)
+        row, probes_done = None, 0
+        for step, op in enumerate(ops):
+            if op[0] == 'new':
+                rules_given, use_conf, overwrite = op[1:4]
+                enf = policy.Enforcer(conf, rules=mapping('Rules.from_dict') if rules_given else None, use_conf=use_conf, overwrite=overwrite)
+                handed_over = bool(rules_given)
+            elif op[0] == 'reg':
+                todo = []
+                for nm, i, res, idx in pols:
+                    if idx % HISTORY_GROUPS == op[1] and nm not in registered:
+                        # after a clear() the same name is registered with ANOTHER declaration
+                        st = HISTORY_DECLS[(i + 3 * epoch) % len(HISTORY_DECLS)]
+                        todo.append(default_of(nm, res, idx, st))
+                        registered[nm] = (st, res, idx)
+                if op[2] == 'list':
+                    enf.register_defaults(todo)
+                else:
+                    for d in todo:
+                        enf.register_default(d)
+            elif op[0] == 'set':
+                enf.set_rules(mapping(HISTORY_FORMS[op[3]]), overwrite=op[1], use_conf=op[2])
+                use_conf, handed_over = op[2], True
+            elif op[0] == 'clear':
+                enf.clear()
+                use_conf = handed_over = False
+                registered = {}
+                epoch += 1
+            elif op[0] == 'reload':
+                enf.load_rules(force_reload=True)
+                use_conf = True
+            elif op[0] == 'load':
+                enf.load_rules()
+            elif op[0] == 'touch':
+                tree.write(os.path.basename(tree.main), filerules, 'json')
+            elif op[0] == 'probe':
+                resolves = use_conf or handed_over
+                state = 'loads_from_configuration' if use_conf else 'rules_handed_over' if handed_over else 'no_rules_at_all'
+                for enforce_scope in (True, False):
+                    conf.set_override('enforce_scope', enforce_scope, group='oslo_policy')
+                    for nm, (st, res, idx) in registered.items():
+                        rolesets = ROLESETS if res == 'role' else [ROLESETS[(idx + step) % 2]]
+                        for sysmode, dom, proj in itertools.product(['none', 'system', 'system_scope'], [0, 1], [0, 1]):
+                            tok = token_scope(sysmode, dom, proj)
+                            gate = bool(st) and enforce_scope and tok not in st
+                            # by name with a plain dict always; RequestContext / its mapping alternate over policies and steps; the
+                            # check-object rows (no registration involved) at the first probe of the history only
+                            for rep, byobj in (('dict', False), ('dict', True), (('ctx', 'pv')[(idx + step) % 2], False)):
+                                if (rep != 'dict' and sysmode == 'system') or (byobj and probes_done):
+                                    continue
+                                for do_raise in (False, True):
+                                    for roles in rolesets:
+                                        row = dict(scope_types=st, check_allows=res, system=sysmode, domain=dom, project=proj, rep=rep,
+                                                   by_object=byobj, do_raise=do_raise, enforce_scope=enforce_scope, roles=roles,
+                                                   step=step, enforcer=state, registrations_cleared=epoch)
+                                        want = reference(st, check_value(res, roles), sysmode, dom, proj, enforce_scope, do_raise)
+                                        creds = make_creds(rep, sysmode, dom, proj, roles)
+                                        try:
+                                            got = enf.enforce(ScopedCheck(res, st) if byobj else nm, {}, creds, do_raise=do_raise)
+                                            got = True if got is True else False if got is False else repr(got)
+                                        except Exception as e:
+                                            got = type(e).__name__
+                                        ctx.case(['history', hid, row], nontrivial=bool(st), stratum='history')
+                                        ctx.count('history_rows')
+                                        ctx.count('history_rows_enforcer_' + state)
+                                        if gate:
+                                            ctx.count('history_gate_denied_rows')
+                                            if not use_conf and not byobj:
+                                                ctx.count('history_gate_denied_rows_by_name_without_configuration_loading')
+                                        ctx.observe('history_outcomes', '%s:%s' % (state, got))
+                                        if not (resolves or byobj):
+                                            # no rule under that name anywhere: the statement does not say what "the check" decides;
+                                            # a scope mismatch is still to be denied, in whichever form
+                                            ctx.unconstrained('policy_name_resolves_to_no_rule')
+                                            if gate and got not in (False, 'InvalidScope', 'PolicyNotAuthorized'):
+                                                ctx.violation('scope-mismatch-not-denied', case,
+                                                              {'row': row, 'policy': nm, 'expected': 'a denial', 'observed': got})
+                                            continue
+                                        if got != want:
+                                            if gate:
+                                                key = 'scope-mismatch-not-denied'
+                                            elif got == 'InvalidScope':
+                                                key = 'scope-gate-fires-without-mismatch'
+                                            else:
+                                                key = 'decision-differs-from-check'
+                                            ctx.violation(key, case, {'row': row, 'policy': nm, 'expected': want, 'observed': got})
+                conf.set_override('enforce_scope', True, group='oslo_policy')
+                probes_done += 1
+        if row:
+            ctx.sample(dict(ops=ops, last_row=row), 'history')
+    finally:
+        tree.cleanup()
+
+
 OVERLAPS = {'quick': 12, 'thorough': 200}
 
 
@@ -788,6 +1001,21 @@ def run(ctx):
             break
         check_block(ctx, es, ov, flips)
     ctx.stratum('table', exhaustive=done)
+    # enforcers built and fed in every public way (early: it must get its share when the wall budget is cut)
+    done = True
+    for i, ops in enumerate(HISTORIES):
+        if not ctx.mine(i + 1):
+            continue
+        if ctx.expired():
+            done = False
+            break
+        check_history(ctx, ops)
+    for i in range(HISTORIES_RANDOM[ctx.tier]):
+        if ctx.expired():
+            done = False
+            break
+        check_history(ctx, gen_history(ctx, i))
+    ctx.stratum('history', exhaustive=False if not done else None)
     # policies whose check string refers to another registered policy with different scope types
     done = True
     for i, (es, where) in enumerate(itertools.product((True, False), ALIAS_WHERE)):
@@ -846,6 +1074,8 @@ def run(ctx):
 def replay(ctx, case):
     if case.get('overlap'):
         return check_overlap(ctx, case)
+    if case.get('history'):
+        return check_history(ctx, case['ops'])
     if case.get('alias'):
         return check_alias_block(ctx, case['enforce_scope'], case['where'], case.get('pair'))
     if case.get('extras'):
